@@ -2,6 +2,20 @@
 // input. Bounded-exhaustive exploration (engine A): every case of the stated
 // universes is executed in a worker subprocess with an address-space cap, a
 // per-case allocation account and a wall-clock watchdog (DESIGN.md 1.3).
+//
+// Everything above looks at ONE call. Two more families look at what a decoder
+// keeps between calls (both tiers, after the enumeration):
+//
+//   - retention (retain.go): for every (entry point, sub-case) a stream of
+//     2N pairwise distinct small valid inputs (stream.go) is fed to one
+//     worker; the live heap after the stream must not have grown by more than
+//     256 KiB + 16 x the largest input, whatever N;
+//   - race side-pass (race.go; the "separate free-running race-detector pass"
+//     of DESIGN.md 2.5): the check is rebuilt with `go build -race` from the
+//     current tree and, for every unordered pair of entry points, two calls
+//     on fresh valid inputs are released together from two goroutines; a data
+//     race in repository code or a `fatal error: concurrent map ...` abort is
+//     a violation. It complements the enumeration, it does not replace it.
 package main
 
 import (
@@ -869,6 +883,7 @@ func main() {
 	}
 
 	// ------------------------------------------- retention family, race side-pass
+	confirmS := time.Since(start).Seconds() - enumS
 	sideStart := time.Now()
 	var retainCov, raceCov map[string]interface{}
 	var swg sync.WaitGroup
@@ -888,7 +903,7 @@ func main() {
 			return
 		}
 		defer os.Remove(rb.bin)
-		par := nw / 2
+		par := nw * 3 / 4 // each driver keeps at most two cores busy
 		if par < 2 {
 			par = 2
 		}
@@ -947,8 +962,14 @@ func main() {
 			"signature.Parse: all strings of length <= 4|5 over the 16-symbol grammar alphabet; idl.ParsePackage: all sequences of <= 3|4 of 29 IDL tokens; " +
 			"nesting families in increasing depth 1..64, each up to the first depth that kills its worker. The chunks of a group that produced a failure or a case slower than 300 ms are run after all other groups. A group (entry point x universe x corpus item) is abandoned, and listed, after 16 failing cases or after " +
 			"1 (Bytes/text/token universes; every universe in the quick tier) or 4 (other universes, thorough tier) cases over the time budget. Mut groups are enumerated value-major and the three values that make count-driven loops long (10MiB, 10MiB+1, 0x7fffffff) are scheduled last. Oracle per case: no panic, no fatal error, TotalAlloc delta <= 64MiB + 64*len(input), still running after 10s = violation. " +
-			"distinct_nontrivial = number of distinct (entry point, sub-case, normalised outcome) triples observed on non-empty inputs, " +
-			"where the outcome is 'accepted' or the returned error text with the echoed input and all digits removed (first 60 characters), or the violation class",
+			"distinct_nontrivial = number of distinct (entry point, sub-case, normalised outcome) triples observed on non-empty inputs of the enumeration, " +
+			"where the outcome is 'accepted' or the returned error text with the echoed input and all digits removed (first 60 characters), or the violation class " +
+			"(the inputs of the two families below are all valid and accepted: they add to evaluations, not to distinct_nontrivial). " +
+			"RETENTION family (key 'retention'): for every (entry point, sub-case) one worker is fed, after a warm-up of 32 inputs, 2N pairwise distinct small VALID inputs (N = 2000 quick / 20000 thorough; distinctness asserted) " +
+			"derived from the composite signatures of Sig(2,2) made fresh by a structure name / a tuple prefix spelling the index / a list around it, with strings and 32-bit integers spelling the index; " +
+			"oracle: HeapAlloc after two runtime.GC, minus the same measurement at the end of the warm-up, <= 256KiB + 16 x the largest input of the stream, after N and after 2N inputs (a bound independent of N; both growths are in the evidence per stream); a growth over the bound must reproduce in a second fresh worker. " +
+			"RACE side-pass (key 'race_side_pass'): the check rebuilt with go build -race from the current tree; for every unordered pair of entry points (with itself included) a fresh driver process runs max(R, number of sub-case combinations) repetitions (R = 200 quick / 1000 thorough; a fifth of that for pairs with idl.ParsePackage), walking through every combination of sub-cases; " +
+			"a repetition is two releases of two goroutines held at one channel: two different never-seen inputs, then the same never-seen index on both sides; any 'WARNING: DATA RACE' with a repository frame in an access stack, or a 'fatal error: concurrent map' abort, is a violation <entryA>||<entryB>/data-race/<top repository frame>, reported if it shows again in at least one of two re-runs of the pair. This pass is a free-running side-pass: it complements the exhaustive enumeration and does not replace it",
 		"samples":                            st.samples,
 		"exhaustive":                         exhaustive,
 		"universe_size":                      total,
@@ -966,7 +987,7 @@ func main() {
 		"worker_processes_started":           spawned.Load(),
 		"vmem_cap_kib":                       vmemCapKiB,
 		"enumeration_s":                      enumS,
-		"confirmation_s":                     time.Since(start).Seconds() - enumS,
+		"confirmation_s":                     confirmS,
 		"deadline_hit":                       sched.timedOut,
 		"reattributed_observations":          reattributed,
 		"enumeration_evaluations":            st.evals,
@@ -981,6 +1002,9 @@ func main() {
 		"the generated ServiceDirectory stub is driven with a fake implementor; action 109 (_socketOfService, unexported) is excluded; stubServiceZero.Authenticate is unreachable from outside package bus (action 8 is intercepted by the generic object) and is not driven",
 		"readers are in-memory (bytes.Reader): read fragmentation is C01's subject",
 		"fingerprints listed in known-findings.txt are reported from the enumeration's observation; unlisted fingerprints are reported only if a witness reproduces 5/5 alone in a fresh worker",
+		"retention: 'memory kept' is the growth of runtime.MemStats.HeapAlloc after two forced collections in a GOMAXPROCS=1 worker; memory held outside the Go heap, or released only by a finalizer that needs a third collection, is not seen; a leak smaller than (256KiB + 16 x input) / 2N bytes per input (about 66 bytes quick, 7 bytes thorough) stays under the bound; only valid inputs are streamed (what a decoder keeps after REFUSING an input is not measured)",
+		"race side-pass: the decoders are plain functions over their own reader (no documented restriction to one goroutine; the bus calls them from one goroutine per connection), so any unsynchronised state shared by two calls on different readers is taken as a defect; the detector sees only the accesses that the repetitions execute (valid inputs, pairs of calls, not triples), decides on happens-before within its history window, and misses nothing that aborts the process (concurrent map faults are caught from the crash trace); it is a side-pass next to the exhaustive enumeration, not a replacement for it",
+		"the Go types bool, int16, uint16 and []struct{} of the reflection decoder have no retention stream and no race sub-case (their encodings cannot be pairwise distinct over thousands of inputs); the enumeration covers them",
 	}
 	os.RemoveAll(filepath.Join(report.Root(), "replays", "C07")) // stale replay files of earlier runs
 	code := chk.Finish(cov, assumptions)
